@@ -16,7 +16,8 @@ Extracted (fail closed on every other shape; the recognisers are those of transl
     rejecting else branch; integer bounds; `if len(v) != n: raise`; the geometry subclasses add nothing
                                                                                               -> src_setter_guards
   * the test that decides whether a model RUNS — ModelGroup.__iter__: `for m in self.models: if T: yield m`
-    (or `if not T: continue` + `yield m`, or a generator expression / comprehension over self.models with `if T`) — and
+    (or `if not T: continue` + `yield m`, or a generator expression / comprehension over self.models with `if T`, or
+    `filter(lambda m: T, self.models)`) — and
     the test by which Observation.validate_steps decides that the model a swept key addresses is enabled — the one `if`
     that raises ValueError about the flag: `if not F: raise` — with T / F one of `x.enabled`, `bool(x.enabled)`,
     `processor.get(<key>)` (FTruthy), `... is True` (FIsTrue), `... == True` (FEqTrue)
@@ -97,7 +98,9 @@ def extract(repo: Path) -> dict:
 
 
 def _flag_expr(e: ast.AST) -> bool:
-    """an expression that reads a model's enabled flag: `<x>.enabled` or `<p>.get(<key>)`"""
+    """an expression that reads a model's enabled flag: `<x>.enabled` or `<p>.get(<key>)` (`(n := <that>)` has its value)"""
+    if isinstance(e, ast.NamedExpr):
+        e = e.value
     if isinstance(e, ast.Attribute) and e.attr == "enabled":
         return True
     return (isinstance(e, ast.Call) and isinstance(e.func, ast.Attribute) and e.func.attr == "get"
@@ -154,6 +157,12 @@ def exec_flag_test(fn: ast.FunctionDef) -> str:
     if val is not None:
         if isinstance(val, ast.Call) and isinstance(val.func, ast.Name) and val.func.id == "iter" and len(val.args) == 1:
             val = val.args[0]
+        # filter(lambda m: T, self.models)
+        if isinstance(val, ast.Call) and isinstance(val.func, ast.Name) and val.func.id == "filter" and len(val.args) == 2 \
+                and not val.keywords and _self_models(val.args[1]) and isinstance(val.args[0], ast.Lambda):
+            la = val.args[0].args
+            if len(la.args) == 1 and not (la.posonlyargs or la.kwonlyargs or la.vararg or la.kwarg or la.defaults):
+                return flag_test(val.args[0].body, where)
         if isinstance(val, (ast.GeneratorExp, ast.ListComp)) and len(val.generators) == 1:
             g = val.generators[0]
             if _self_models(g.iter) and isinstance(g.target, ast.Name) and isinstance(val.elt, ast.Name) \
